@@ -3,6 +3,7 @@ package main
 import (
 	"bytes"
 	"fmt"
+	"math/bits"
 	"math/rand"
 	"net"
 	"net/http"
@@ -185,8 +186,11 @@ func (g *gram) enum() XEnum {
 				break
 			}
 		}
-		if v&(v-1) != 0 || v == 0 {
-			bit = -1
+		// the exponent form is offered for exact powers of two only, with the exponent of THIS value (a re-rolled value
+		// must not inherit the exponent of the one it replaced: two entries of one enum would denote the same value)
+		bit = -1
+		if v != 0 && v&(v-1) == 0 {
+			bit = bits.TrailingZeros64(v)
 		}
 		e.Entries = append(e.Entries, XEntry{Name: B(g.upperName(name + "_")), Text: B(g.literal(v, bit)), V: v})
 	}
